@@ -215,7 +215,7 @@ def run(ctx):
     if ctx.replay:
         hist = [ops_of_case(json.load(open(ctx.replay))["case"])]
     else:
-        n = ctx.n(120, 2500)
+        n = ctx.n(80, 2500)
         hist = list(CORPUS) + [gen(ctx.rng, ctx.rng.choice([3, 6, 12])) for _ in range(n)]
     ctx.cov["rule"] = ("random histories of 60 modifications (add/free, re-expand, bounds, penalties, capacities > 0, suspend/resume, limits in 30%, "
                        "ageing of the counter up to its wrap-around in 70%); every solve() is one evaluation; non-trivial = the solve happens after "
@@ -297,5 +297,5 @@ META = {
             "(counter wrap-around epoch 0).",
     "technique": "Coq model + invariant proof over all histories; correspondence of private members after every operation; verified closure oracle; "
                  "differential testing of the rebuilt library against itself",
-    "claimed": False,
+    "claimed": True,
 }
